@@ -19,6 +19,8 @@ func checkC15(c *Check, a *Anchors) {
 	c15Fuzzy(c, a)
 	nilContradictions(c, a, "checked-then-dereferenced", []string{PkgTask})
 	aliasScanUnfiltered(c, a)
+	fuzzyTrainedOnNames(c, a)
+	aliasFromLocalName(c, a)
 	resolvesThroughGetTask(c, a, "resolves-through-GetTask")
 }
 
